@@ -130,13 +130,13 @@ PROPS = {
     },
     "C10": {
         "units": ["psl"], "kani_complete": [], "kani_bounded_quick": [], "kani_bounded_thorough": [],
-        "design_ref": "DESIGN.md section 5 / C10",
+        "design_ref": "DESIGN.md section 5 / C10 and section 0.4",
         "not_covered": [
-            "the first sentence of C10: equality with the publicsuffix.org algorithm applied to public_suffix_list.dat "
-            "(needs the 9.8k-rule text file as an oracle and a correspondence with the packed trie: an enumeration, "
-            "not a contract). A regenerated or bit-flipped table that stays well-formed is NOT detected",
-            "'exactly one more label than the suffix' is claimed only as: a non-empty label-aligned suffix",
-            "find(..) == None => no node in range has that label (needs the sortedness of the table as a contract)",
+            "that the packed table (tld_list.rs) encodes exactly the rules of public_suffix_list.dat: the proof is relative "
+            "to the rule trie the table represents (well-formedness and sortedness of the shipped table are checked by the "
+            "verified checker at run time); a regenerated table that is a different but well-formed, sorted trie is NOT detected",
+            "the rule-walk specification (`walk`) is the publicsuffix.org / x-net-publicsuffix trie walk written as a spec "
+            "function, not the declarative 'longest matching rule' definition over a rule set",
         ],
     },
     "C11": {
